@@ -27,8 +27,57 @@ ASSUMPTIONS = ["context bound: any number of preemptions, each letting other thr
                "the API functions reach shared numeric state only through the unit-level functions (checked dynamically on the API inputs)"]
 
 
+_MUTABLE = None
+
+
+def mutable_names():
+    """names of the shared containers / singleton attributes that some library call writes at run time, found by a
+    concrete dry run of every unit target and API call under the hooks (tables that nobody writes after import are
+    constants: they carry no residue and cannot be interfered with)."""
+    global _MUTABLE
+    if _MUTABLE is not None:
+        return _MUTABLE
+    import a5
+    from . import replay_sched as rs
+    from .targets import make_call
+    hooked, undo = shared.hook_all(shared.discover())
+    views, undo_inst = shared.hook_instances()
+    clock = shared.Clock(REPO)
+    names = set()
+    calls = []
+    for label, mn, qual in unit_targets():
+        for sd in (1, 1001):
+            try:
+                calls.append(make_call(rs.concrete_inputs(sd), mn, qual)[0])
+            except Exception:
+                pass
+    for name, args in API_CALLS:
+        try:
+            aa = [resolve_arg(a5, a) for a in args]
+            calls.append(lambda name=name, aa=aa: getattr(a5, name)(*aa))
+        except Exception:
+            pass
+    try:
+        for call in calls:
+            st = shared.begin(None, clock, "plain")
+            clock.start()
+            try:
+                call()
+            except Exception:
+                pass
+            finally:
+                clock.stop()
+            names.update(w[0] for w in st.writes)
+    finally:
+        shared.end()
+        undo()
+        undo_inst()
+    _MUTABLE = names
+    return names
+
+
 def _run(call, clock, c, mode):
-    st = shared.begin(c, clock, mode)
+    st = shared.begin(c, clock, mode, mutable_names() if mode != "plain" else None)
     clock.start()
     try:
         try:
@@ -52,10 +101,14 @@ def h_unit(c, label, mn, qual, inputs="symbolic"):
     c.real_mul_uf = True
     prov = _provider(c, inputs)
     undo_math = sharedsym.install_uf_math()
+    snap = shared.snapshot_state()
     found = shared.discover()
     hooked, undo = shared.hook_all(found)
+    views, undo_inst = shared.hook_instances()
     for _, h in hooked:
         h._symx_entry = None
+    for v in views:
+        v._symx_entry = None
     clock = shared.Clock(REPO)
     try:
         mk = (lambda: sharedsym.make_call(c, mn, qual)) if prov is None else (lambda: sharedsym._make_call(prov, mn, qual))
@@ -68,7 +121,9 @@ def h_unit(c, label, mn, qual, inputs="symbolic"):
     finally:
         shared.end()
         undo()
+        undo_inst()
         undo_math()
+        shared.restore_state(snap)
     info = {"target": label, "windows": [list(w) for w in st1.windows[:6]], "events": len(clock.events),
             "shared_cells_written": sorted({w[0] for w in st1.writes})[:8], "candidate": True}
     if k1 != k2:
@@ -115,23 +170,82 @@ def resolve_arg(a5, a):
     return a
 
 
-def h_api(c, idx):
+def _cold_reset():
+    """fresh projection singletons (cold caches) for the API-level harness."""
+    import a5.core.cell as cm
+    import a5.projections.dodecahedron as dd
+    cm._dodecahedron = dd.DodecahedronProjection()
+
+
+def h_api(c, idx, cold=False):
     """concrete API call on the real code with every shared container hooked: search for reads of a
     shared numeric cell that follow a preemption point after the call's own write (interference window)."""
     import a5
     name, args = API_CALLS[idx]
     args = [resolve_arg(a5, a) for a in args]
+    if cold:
+        _cold_reset()
+    else:
+        try:
+            getattr(a5, name)(*args)          # warm the key-determined caches: their fill is covered by the cold job
+        except Exception:
+            pass
+    sf.install_float_mode(c, "real")
+    c.real_mul_uf = True
+    undo_math = sharedsym.install_uf_math()
+    snap = shared.snapshot_state()
     found = shared.discover()
     hooked, undo = shared.hook_all(found)
+    views, undo_inst = shared.hook_instances()
+    for _, h in hooked:
+        h._symx_entry = None
+    for v in views:
+        v._symx_entry = None
     clock = shared.Clock(REPO)
+    symbolic_ok = True
+    call = lambda: getattr(a5, name)(*args)          # noqa: E731
     try:
-        (k, r), st = _run(lambda: getattr(a5, name)(*args), clock, c, "plain")
+        try:
+            if cold:
+                # cold caches: only the publication / insert-only obligations (the numeric counter of the CRS singleton is
+                # touched on every cache fill and its havoc forks once per fill: 2^30 paths)
+                raise sx.Unsupported("cold run is not explored with a symbolic schedule")
+            # symbolic schedule: reads of shared numeric cells after a preemption point return ite(b, fresh, own)
+            (k, r), st = _run(call, clock, c, "interfere")
+        except sx.Unsupported:
+            symbolic_ok = False
+            shared.end()
+            if cold:
+                _cold_reset()
+                undo()
+                undo_inst()
+                hooked, undo = shared.hook_all(shared.discover())
+                views, undo_inst = shared.hook_instances()
+            (k, r), st = _run(call, clock, c, "plain")
+        postpub = st.post_publication_mutations()
+        removals = list(st.removals)
+        windows = list(st.windows)
+        if symbolic_ok:
+            (k2, r2), st2 = _run(call, clock, c, "entry")
     finally:
         shared.end()
         undo()
-    info = {"api": name, "args": repr(args)[:200], "idx": idx, "windows": [list(w) for w in st.windows[:6]],
-            "events": len(clock.events), "candidate": True}
-    c.prove(len(st.windows) == 0, "api:no-interference-window-on-shared-numeric-state", info=info)
+        undo_inst()
+        undo_math()
+        shared.restore_state(snap)
+    info = {"api": name, "args": repr(args)[:200], "idx": idx, "windows": [list(w) for w in windows[:6]],
+            "events": len(clock.events), "candidate": True, "symbolic_schedule": symbolic_ok}
+    if symbolic_ok:
+        if k != k2:
+            c.fail("api:never-raises-because-of-interleaving", info=info)
+        else:
+            c.prove(sharedsym.same(r, r2) if k == "ok" else r == r2, "api:result-independent-of-schedule", info=info)
+    elif not cold:
+        c.prove(len(windows) == 0, "api:no-interference-window-on-shared-numeric-state", info=info)
+    c.prove(len(postpub) == 0, "api:objects-are-complete-before-they-are-published-in-shared-state",
+            info=dict(info, postpub=[list(x) for x in postpub[:4]], cold=True))
+    c.prove(len(removals) == 0, "api:shared-caches-are-insert-only",
+            info=dict(info, removals=[list(x) for x in removals[:4]], cold=True))
     c.prove(k == "ok" or name in ("uncompact",), "api:call-completes", info=info)
 
 
@@ -152,6 +266,8 @@ def jobs(tier, seed):
     n = len(API_CALLS) if tier != "quick" else len(API_CALLS)
     for i in range(n):
         js.append(Job("api[%d:%s]" % (i, API_CALLS[i][0]), "h_api", {"idx": i}, {"logic": None}, weight=2))
+        if API_CALLS[i][0] in ("lonlat_to_cell", "cell_to_lonlat", "cell_to_boundary"):
+            js.append(Job("api-cold[%d:%s]" % (i, API_CALLS[i][0]), "h_api", {"idx": i, "cold": True}, {"logic": None}, weight=2))
     return js
 
 
@@ -190,10 +306,12 @@ args = [resolve_arg(a5, a) for a in args]
 def make():
     return lambda: getattr(a5, name)(*args)
 k, n, seq, r = rs.sweep(make, name, prefix, max_events=1500)
+if k is None and %r:
+    k, n, seq, r = rs.sweep(make, name, prefix, max_events=1500, reset=rs.cold_reset, same_call_interferer=make)
 if k is not None:
     print("REPRODUCED schedule-dependent:a5.%%s (preempt at line event %%d of %%d)" %% (name, k, n)); sys.exit(1)
 print("ok")
-""" % (VERIF, name, args)
+""" % (VERIF, name, args, bool(info.get("cold")))
         return {"script": script, "description": "schedule dependence of a5.%s" % name, "candidate": True}
     return None
 
